@@ -96,16 +96,17 @@ def handleState (j : Json) : Except String Json := do
           ("keys_final", natsToJson p.keysFinal),
           ("mapping", Json.arr (p.mapping.map natsToJson).toArray),
           ("out", outToJson (publicGroups p (!comb.isEmpty)))]
+  let model := model.setObjVal! "depth_ok" (Json.bool (depthCheck (toRPN s)))
   -- spec
   let spec : Json :=
     match Spec.expandVal venv s with
-    | .error e => errJson e
-    | .ok rows =>
+    | none => Json.mkObj [("err", Json.str "rejected")]
+    | some rows =>
       -- the jobs' index assignments, for the group-by
-      let jobsInd := match Spec.expand (fun n => List.range (Spec.leavesAt (venv n).2 (venv n).1).length)
+      let jobsInd := match Spec.jobs (fun n => List.range (Spec.leavesAt (venv n).2 (venv n).1).length)
                               (fun n => Spec.specShape (venv n).2 (venv n).1) s with
-        | .ok e => e.rows
-        | .error _ => []
+        | some r => r
+        | none => []
       Json.mkObj [
         ("rows", rowsValToJson rows),
         ("closure", natsToJson (Spec.closure s comb)),
